@@ -148,6 +148,15 @@ func runLife(p lifeParams) *scen.Outcome {
 		rig.Do(c, form, svc.CodecBytes, "S.B0", svc.Spec{Run: uint32(p.idx), Conn: 1, Caller: 1, Counter: counter, DelayUs: delayUs, ReplyLen: 10}, 64, nil)
 	}
 	call(conns[0], 1, 0, rig.FormCall)
+	if p.idx%3 != 0 {
+		// requests the server refuses (unknown method, undecodable arguments)
+		// are part of a connection's life too
+		rig.Do(conns[0], rig.FormCall, svc.CodecBytes, "S.Nope", svc.Spec{Run: uint32(p.idx), Conn: 1, Caller: 3, Counter: 1, ReplyLen: 10}, 64, nil)
+		rig.Do(conns[1], rig.FormGo, svc.CodecBytes, "Nope.Nope", svc.Spec{Run: uint32(p.idx), Conn: 1, Caller: 3, Counter: 2, ReplyLen: 10}, 64, nil)
+		if st, err := conns[1].NewStream("Nope.S"); err == nil {
+			st.Close()
+		}
+	}
 	if p.inflight {
 		spawn(func() { call(conns[0], 2, gateDelayUs, rig.FormCall) })
 		spawn(func() { call(conns[1], 3, gateDelayUs, rig.FormGo) })
@@ -179,6 +188,9 @@ func runLife(p lifeParams) *scen.Outcome {
 		tc := rig.TransportCaller{T: tr, Addr: addr}
 		for i := 0; i < 6; i++ {
 			call(tc, uint64(10+i), 0, rig.Forms[i%4])
+		}
+		if p.idx%3 == 1 {
+			rig.Do(tc, rig.FormCall, svc.CodecBytes, "S.Nope", svc.Spec{Run: uint32(p.idx), Conn: 1, Caller: 3, Counter: 3, ReplyLen: 10}, 64, nil)
 		}
 		if p.inflight {
 			spawn(func() { call(tc, 20, gateDelayUs, rig.FormCall) })
